@@ -263,6 +263,12 @@ static Reg r_loadraw("nn_loadraw", [](const Args& a) {
     default: if (bin) { int v = r.irange(-2, n + 1); size_t q = 16 + 4 * (p / 4 % std::max<size_t>(1, (img.size() - 16) / 4)); if (q + 4 <= img.size()) std::memcpy(&img[q], &v, 4); } else img[p] = '-'; break;
     }
   }
+  // a corrupted header can announce a tree of up to 2^31 nodes: Load then reserves that much memory before reading a single node
+  // (documented: std::bad_alloc); whether that succeeds depends on the machine, so such images are not loaded here
+  { long long ts = 0;
+    if (bin) { if (img.size() >= 40) { int v; std::memcpy(&v, &img[16 + 4 * 4], 4); ts = v; } }
+    else { std::istringstream hs(img); long long h[6] = {0, 0, 0, 0, 0, 0}; for (int i = 0; i < 6 && (hs >> h[i]); ++i) {} ts = h[4]; }
+    if (ts > 200000) { emit("H"); return; } }
   NN nn1; std::istringstream is(img);
   std::string e = guarded([&] { nn1.Load(is, bin); });
   if (e == "!E") { emit("E"); return; }
